@@ -194,6 +194,19 @@ func originsOpt(v ssa.Value, keepMakeIface bool) []ssa.Value {
 		case *ssa.UnOp:
 			if x.Op == token.MUL {
 				if cell := cellOf(x.X); cell != nil {
+					// flow-sensitive within the block: the nearest preceding store wins
+					if blk := x.Block(); blk != nil {
+						found := false
+						for k := instrIndex(x) - 1; k >= 0 && !found; k-- {
+							if s, ok := blk.Instrs[k].(*ssa.Store); ok && cellOf(s.Addr) == cell {
+								walk(s.Val)
+								found = true
+							}
+						}
+						if found {
+							return
+						}
+					}
 					st := cellStores(cell)
 					if len(st) > 0 {
 						for _, s := range st {
